@@ -1011,8 +1011,43 @@ class LuaASTEchoWriter(BaseLuaWriter):
     def _walk_VarName(self, node):
         yield self._get_name(node, node.name)
 
+    def _walk_prefix(self, node, exp_prefix):
+        """Walks the prefix of an index, attribute or call expression.
+
+        Parentheses around a prefix belong to no node when the prefix is an
+        operator expression, as in (f or g)(x). They are written here.
+        """
+        opens = 0
+        if isinstance(exp_prefix, (parser.VarIndex, parser.VarAttribute,
+                                   parser.FunctionCall,
+                                   parser.FunctionCallMethod)):
+            # (Not the head of the chain: a(b)(c).)
+            pass
+        elif self._args.get('ignore_tokens'):
+            if isinstance(exp_prefix, (parser.ExpBinOp, parser.ExpUnOp)):
+                opens = 1
+                yield b' ('
+        else:
+            while True:
+                next_pos = self._pos
+                while (next_pos < exp_prefix.start_pos and
+                       isinstance(self._tokens[next_pos],
+                                  (lexer.TokSpace, lexer.TokNewline,
+                                   lexer.TokComment))):
+                    next_pos += 1
+                if (next_pos >= exp_prefix.start_pos or
+                        not self._tokens[next_pos].matches(
+                            lexer.TokSymbol(b'('))):
+                    break
+                opens += 1
+                yield self._get_text(node, b'(')
+        for t in self._walk(exp_prefix):
+            yield t
+        for _ in range(opens):
+            yield self._get_text(node, b')')
+
     def _walk_VarIndex(self, node):
-        for t in self._walk(node.exp_prefix):
+        for t in self._walk_prefix(node, node.exp_prefix):
             yield t
         yield self._get_text(node, b'[')
         self._indent += 1
@@ -1022,7 +1057,7 @@ class LuaASTEchoWriter(BaseLuaWriter):
         yield self._get_text(node, b']')
 
     def _walk_VarAttribute(self, node):
-        for t in self._walk(node.exp_prefix):
+        for t in self._walk_prefix(node, node.exp_prefix):
             yield t
         yield self._get_text(node, b'.')
         yield self._get_name(node, node.attr_name)
@@ -1056,7 +1091,12 @@ class LuaASTEchoWriter(BaseLuaWriter):
                 in_parens = True
                 self._indent += 1
         else:
-            if self._tokens[self._pos].matches(lexer.TokSymbol(b'(')):
+            # (A parenthesis that opens the prefix of a call or index
+            # expression, as in (f or g)(x), belongs to that expression, which
+            # then ends where this node ends.)
+            if (self._tokens[self._pos].matches(lexer.TokSymbol(b'(')) and
+                    not (isinstance(node.value, parser.Node) and
+                         node.value.end_pos == node.end_pos)):
                 yield b'('
                 in_parens = True
                 self._pos += 1
@@ -1100,7 +1140,7 @@ class LuaASTEchoWriter(BaseLuaWriter):
             yield t
 
     def _walk_FunctionCall(self, node):
-        for t in self._walk(node.exp_prefix):
+        for t in self._walk_prefix(node, node.exp_prefix):
             yield t
         if node.args is None:
             yield self._get_text(node, b'(')
@@ -1115,7 +1155,7 @@ class LuaASTEchoWriter(BaseLuaWriter):
                 yield t
 
     def _walk_FunctionCallMethod(self, node):
-        for t in self._walk(node.exp_prefix):
+        for t in self._walk_prefix(node, node.exp_prefix):
             yield t
         yield self._get_text(node, b':')
         yield self._get_name(node, node.methodname)
